@@ -87,10 +87,13 @@ def site_of(f):
 
 
 def run(chk):
-    chk.rule = ("seeded cases from tools/gen_prp.py over the 9 instantiated pairs {C,NNC polyhedron, Grid, Rational_Box, BD_Shape<mpq>} x the 5 policies "
+    chk.rule = ("seeded cases from tools/gen_prp.py over the 12 instantiated pairs {C,NNC polyhedron, Grid, Rational_Box, BD_Shape<mpq>} x the 5 policies "
                 "(Direct, Smash, Constraints, Congruences, Shape_Preserving): (shrink) a grid congruence against a component bounded in its direction, "
                 "range width drawn from {<m, =m, <2m, =2m, >2m, 0} with closed/open ends, rational bounds, negative values, both call directions, then "
-                "reduce(); (period) grids with NON-INTEGRAL periods (k*x_i = r mod m, k not dividing m, mixed congruences with non-unit coefficients) against "
+                "reduce(); (transformer) EVERY transformer of the product (affine / generalized -- both overloads -- / bounded images and preimages, unconstrain of a "
+                "variable and of a set, time_elapse, all dimension changes incl. remove / map / expand / fold, intersection, upper bound, difference, widening, "
+                "concatenate, closure) on layouts with a non-grid second and / or first component (Grid x C, C x NNC, NNC x NNC, Box x C, BDS x C, C x BDS, "
+                "Box x Octagon, NNC x Box, ...) with relations whose image and preimage differ; (period) grids with NON-INTEGRAL periods (k*x_i = r mod m, k not dividing m, mixed congruences with non-unit coefficients) against "
                 "polyhedra / boxes whose rational bounds lie strictly between two grid hyperplanes, around exactly one, exactly on them (open/closed), over "
                 "several periods or one-sided, below / across / above zero, with octagonal and general constraints in 2-3 dimensions, mostly under the "
                 "Shape_Preserving and Congruences policies; (reduce) arbitrary components incl. inconsistent pairs and empties, explicit + implicit reduce(), reduce() again; (ops) "
